@@ -370,14 +370,46 @@ pub fn bytes_strategy(_tier: Tier) -> BoxedStrategy<Case> {
     decoded_strategy(fuzz_domain)
 }
 
+const SEL: [u16; 3] = [0, 21846, 43691];
+/// history length of the bounded-exhaustive sub-check
+fn seq_len(tier: Tier) -> usize {
+    if tier == Tier::Quick {
+        4
+    } else {
+        5
+    }
+}
+/// alphabet of the bounded-exhaustive sub-check
+fn alphabet() -> Vec<Op> {
+    let mut a = vec![Op::AddNode];
+    for x in SEL {
+        a.push(Op::RemoveNode(x));
+        a.push(Op::RemoveEdge(x));
+        for y in SEL {
+            a.push(Op::AddEdge(0, x, y));
+        }
+    }
+    a
+}
+fn enum_count(tier: Tier) -> u64 {
+    2 * (alphabet().len() as u64).pow(seq_len(tier) as u32)
+}
+fn enum_make(tier: Tier, i: u64) -> Case {
+    let a = alphabet();
+    let mut ops = vec![Op::AddNode, Op::AddNode, Op::AddNode];
+    ops.extend(crate::util::digits(i / 2, a.len() as u64, seq_len(tier)).into_iter().map(|d| a[d].clone()));
+    Case { stable: i % 2 == 0, width: 1, ops }
+}
+
 pub fn property() -> Property {
     Property {
         id: "C14",
-        rule: "operation histories (<=40 ops quick / <=120 thorough) over Acyclic<DiGraph> and Acyclic<StableDiGraph> with u8 and u32 indices: add_node, try_add_edge / try_update_edge / Build::add_edge / Build::update_edge between live nodes (incl. self-loops, edges closing cycles and edges against the current order), remove_edge (live and absent), remove_node of present nodes (incl. non-last nodes of a DiGraph) and of absent / vacant / out-of-range indices; after every step the inner graph is compared with the reference multigraph of C01/C02, and the order bookkeeping is checked: nodes_iter = live nodes once, positions strictly increasing, at_position inverse of get_position, every edge forward, range(..) and partial ranges, is_valid_edge for all ordered pairs = no path back (Warshall); insertions accepted iff valid with the right error kind; a rejected call leaves graph and order sequence identical; non-trivial = a renumbering (DiGraph) or absent-node (StableDiGraph) removal followed by an accepted edge that needed a reorder. Second sub-check: try_from_graph / TryFrom on random digraphs (DiGraph, StableDiGraph with vacancies): Ok iff acyclic, initial order valid, Cycle names a node on a cycle. Distinct by case fingerprint; the *-from-bytes sub-checks feed the same interpreter with histories decoded from generated byte strings by the libFuzzer codec (all operation kinds equally likely, up to the thorough-tier length)",
+        rule: "operation histories (<=40 ops quick / <=120 thorough) over Acyclic<DiGraph> and Acyclic<StableDiGraph> with u8 and u32 indices: add_node, try_add_edge / try_update_edge / Build::add_edge / Build::update_edge between live nodes (incl. self-loops, edges closing cycles and edges against the current order), remove_edge (live and absent), remove_node of present nodes (incl. non-last nodes of a DiGraph) and of absent / vacant / out-of-range indices; after every step the inner graph is compared with the reference multigraph of C01/C02, and the order bookkeeping is checked: nodes_iter = live nodes once, positions strictly increasing, at_position inverse of get_position, every edge forward, range(..) and partial ranges, is_valid_edge for all ordered pairs = no path back (Warshall); insertions accepted iff valid with the right error kind; a rejected call leaves graph and order sequence identical; non-trivial = a renumbering (DiGraph) or absent-node (StableDiGraph) removal followed by an accepted edge that needed a reorder. Second sub-check: try_from_graph / TryFrom on random digraphs (DiGraph, StableDiGraph with vacancies): Ok iff acyclic, initial order valid, Cycle names a node on a cycle. Distinct by case fingerprint; the *-from-bytes sub-checks feed the same interpreter with histories decoded from generated byte strings by the libFuzzer codec (all operation kinds equally likely, up to the thorough-tier length); bounded-exhaustive sub-check: every history of 4 (thorough: 5) operations over a 16-operation alphabet (add node, try_add_edge between / remove node / remove edge at the first, middle and last position) after three initial nodes, on both inner graph types",
         assumptions: &["insertions are only attempted between live nodes (try_add_edge documents a panic otherwise); histories stop when the inner graph's index space is exhausted"],
         both_profiles: false,
         subs: vec![
-            sub_fuzz("acyclic/history", 600_000, 4_000_000, strategy, run, fuzz_domain), sub("acyclic/history-from-bytes", 300_000, 4_000_000, bytes_strategy, run),
+            sub_fuzz("acyclic/history", 600_000, 4_000_000, strategy, run, fuzz_domain),
+            sub_enum("acyclic/all-short-histories", enum_count, enum_make, run), sub("acyclic/history-from-bytes", 300_000, 4_000_000, bytes_strategy, run),
             sub("acyclic/try_from", 1_500_000, 30_000_000, t_strategy, t_run),
         ],
     }
